@@ -25,6 +25,10 @@ type c05Script struct {
 	Faults    []faultStep
 	RestartFr map[int]bool // restart fresh?
 	StayDown  map[int]bool
+	// Staller is an up node whose sync service goes silent after StallAt beacons during the healed phase (-1: none):
+	// a lagging node that picks it must give up on that stream and finish with another peer
+	Staller int
+	StallAt int
 }
 
 func (s c05Script) String() string {
@@ -43,7 +47,7 @@ func (s c05Script) String() string {
 	}
 	c := s.Cfg
 	return fmt.Sprintf("%s n=%d t=%d %s period=%v catchup=%v pre=%d faults=[%s] restartFresh=%v stayDown=%v", c.Scheme, c.N, c.T, BackendNames[c.Backend], c.Period, c.Catchup, s.Pre,
-		strings.Join(fs, " "), s.RestartFr, s.StayDown)
+		strings.Join(fs, " "), s.RestartFr, s.StayDown) + fmt.Sprintf(" staller=%d@%d", s.Staller, s.StallAt)
 }
 
 type c05Result struct {
@@ -69,18 +73,30 @@ func runC05(s c05Script, quiet time.Duration) c05Result {
 	}
 	net.NextStep()
 	net.Advance(nil, cfg.GenesisIn)
-	if !net.WaitHeads(nil, 1, 5*time.Second) {
-		return c05Result{why: "round 1 not produced in the healthy prefix"}
-	}
-	round := uint64(1)
-	for i := 0; i < s.Pre; i++ {
-		net.NextStep()
-		net.Advance(nil, cfg.Period)
-		round++
-		if !net.WaitHeads(nil, round, 5*time.Second) {
-			return c05Result{why: fmt.Sprintf("round %d not produced in the healthy prefix", round)}
+	// healthy prefix: not an oracle. A node whose goroutines were slow to start can miss its very first tick (harness start-up
+	// race under load); the network then catches up over the following ticks, so the prefix is extended (in 1 s steps, which also
+	// drives catch-up) until every node's head equals its clock round.
+	isLevel := func() bool {
+		for _, nd := range net.Nodes {
+			if h, err := nd.Head(); err != nil || h != nd.ClockRound() {
+				return false
+			}
 		}
+		return true
 	}
+	level := net.WaitHeads(nil, 1, 3*time.Second)
+	for i := 0; i < s.Pre || !level; i++ {
+		if i > s.Pre+12 {
+			return c05Result{why: "harness: the healthy prefix did not become level"}
+		}
+		for k := 0; k < int(cfg.Period/time.Second); k++ {
+			net.NextStep()
+			net.Advance(nil, time.Second)
+			net.SettleFor(quiet, 3*time.Second)
+		}
+		level = net.WaitHeads(nil, net.Nodes[0].ClockRound(), 2*time.Second) && isLevel()
+	}
+	round := net.Nodes[0].ClockRound()
 	net.Settle()
 	// fault phase
 	stopped := map[int]bool{}
@@ -115,6 +131,9 @@ func runC05(s c05Script, quiet time.Duration) c05Result {
 	}
 	// heal
 	net.SetAllLinks(LinkInline)
+	if s.Staller >= 0 && net.Nodes[s.Staller].Up {
+		net.SetLiar(net.Nodes[s.Staller].Addr, &LieSpec{Kind: LieStall, At: s.StallAt, Have: round})
+	}
 	var restarted []int
 	for i := range stopped {
 		if s.StayDown[i] {
@@ -141,7 +160,15 @@ func runC05(s c05Script, quiet time.Duration) c05Result {
 	// while g missing rounds are produced at the catch-up rate, new rounds keep becoming due at the normal rate:
 	// T = g*c*p/(p-c) is when production meets the schedule; plus 4 periods of slack (sync start-up, tick alignment)
 	p, c := int64(cfg.Period/time.Second), int64(cfg.Catchup/time.Second)
-	budget := time.Duration((int64(gap)*c*p+(p-c)-1)/(p-c))*time.Second + 4*cfg.Period
+	budget := time.Duration((int64(gap)*c*p+(p-c)-1)/(p-c))*time.Second + 6*cfg.Period
+	if len(restarted) > 0 {
+		// restarted nodes first sync (a few ticks) before they contribute; with t = n nothing moves until they have
+		budget += 4 * cfg.Period
+	}
+	if s.Staller >= 0 {
+		// every time a lagging node picks the silent peer first it loses the 2 periods after which a stuck sync is renewed, plus a tick
+		budget += 12 * cfg.Period
+	}
 	res := c05Result{gap: gap, budget: budget, restarted: restarted}
 	caughtUp := func() bool {
 		for _, nd := range net.Nodes {
@@ -256,7 +283,7 @@ func TestC05Liveness(t *testing.T) {
 		}
 		// a catch-up period equal to the period can never close a gap (one round per period is the normal rate): catch-up < period
 		cfg.Catchup = time.Duration(rapid.IntRange(1, int(cfg.Period/time.Second)-1).Draw(rt, "catchup")) * time.Second
-		s := c05Script{Cfg: cfg, Pre: rapid.IntRange(0, 3).Draw(rt, "pre"), RestartFr: map[int]bool{}, StayDown: map[int]bool{}}
+		s := c05Script{Cfg: cfg, Pre: rapid.IntRange(0, 3).Draw(rt, "pre"), RestartFr: map[int]bool{}, StayDown: map[int]bool{}, Staller: -1}
 		nf := rapid.IntRange(1, 5).Draw(rt, "faultTicks")
 		stopped := map[int]bool{}
 		for i := 0; i < nf; i++ {
@@ -292,6 +319,19 @@ func TestC05Liveness(t *testing.T) {
 				s.RestartFr[x] = rapid.Bool().Draw(rt, "fresh")
 			}
 		}
+		if len(stopped) > 0 && rapid.IntRange(0, 2).Draw(rt, "withStaller") == 0 {
+			// only when another node that never stopped stays reachable: the silent peer must not be the only source
+			var never []int
+			for x := 0; x < n; x++ {
+				if !stopped[x] {
+					never = append(never, x)
+				}
+			}
+			if len(never) >= 2 {
+				s.Staller = never[0]
+				s.StallAt = rapid.IntRange(0, 3).Draw(rt, "stallAt")
+			}
+		}
 		desc := s.String()
 		r := runC05(s, 20*time.Millisecond)
 		if r.finding != nil {
@@ -316,6 +356,9 @@ func TestC05Liveness(t *testing.T) {
 		labels := []string{"scheme/" + cfg.Scheme, "backend/" + BackendNames[cfg.Backend], fmt.Sprintf("gap=%d", minU(r.gap, 6))}
 		if len(r.restarted) > 0 {
 			labels = append(labels, "restart-rejoin")
+		}
+		if s.Staller >= 0 {
+			labels = append(labels, "silent-sync-peer")
 		}
 		rec.Case(desc, r.gap >= 2 || len(r.restarted) > 0, labels...)
 	})
